@@ -4,7 +4,7 @@ import props.c03 as c03
 from props.bngen import hx
 
 GENERATED = ["ep2", "ep"]
-EXTRA_THEOREM_MODULES = ["RelicVerif.Lemmas.Ep2Formulas"]
+EXTRA_THEOREM_MODULES = ["RelicVerif.Lemmas.Ep2Formulas", "RelicVerif.Lemmas.Ep2Mul"]
 TRUSTED = [
     "translator tools/translate.py: the add/dbl templates instantiated for (ep2, fp2) and the wrappers of relic_ep2_add.c / relic_ep2_dbl.c are "
     "regenerated on every run; Lemmas/Ep2Formulas.lean checks by rfl that they are the same terms as the (ep, fp) instantiation, so the formula "
@@ -12,15 +12,27 @@ TRUSTED = [
     "specification: affine chord-and-tangent law over Fp2 = Fp[u]/(u^2 - qnr) built from the generic tower spec (Spec/Tower.lean, Spec/CurveX.lean); "
     "the twist (a', b', generator, order, cofactor, qnr) is read from the running library and its defining properties are checked by the driver "
     "(qnr non-residue, G on the twist, r*G = O, h*r in the Hasse interval of E'(Fp2))",
-    "class C (compared with [k]Q / k*P + m*Q in the specification per line, not modelled): every ep2_mul_* variant incl. the Frobenius-based GLS "
-    "recodings, fixed-base and simultaneous forms, ep2_mul_sim_lot/dig; the loops shared with ep_mul_* are covered by the abstract-group theorems of "
-    "C03 (re-exported)",
+    "class A (model executed per line, model column = its prediction incl. errors; theorem for every integer scalar): ep2_mul_basic/big/dig, slide "
+    "(|k| unreduced), monty, gen/fix/fix_combs, fix_combd, fix_basic, fix_lwnaf, sim_trick, sim_joint, sim_dig; Frobenius paths ep2_mul_gls_imp "
+    "(= lwnaf = ep2_mul), ep2_mul_sim_endom (= sim_inter / sim / sim_gen, the ep2_mul calls of sim_basic and of the early exits), ep2_mul_sim_lot "
+    "for n <= 10, with bn_rec_frb (BN branch) in integer form.  The models run over the affine law of the twist (Spec/CurveX), the C loops over "
+    "the projective formulas: the link is the formula theorems.  The Frobenius data (constants of ep2_frb, family parameter, BN flag) are read "
+    "from the running library; the driver checks psi(G) = [p mod r]G and that the four columns of the bn_rec_frb lattice annihilate G "
+    "(hypotheses of rec_frb_bn_congr / ep2_mul_gls_correct)",
+    "modelled and executed per line but not proved: the bucket branch of ep2_mul_sim_lot (n > 10; Ep2Mul.simLotBucket4), bn_rec_frb for non-BN "
+    "families (digits in base |x|); op e2frb presents the decomposition of bn_rec_frb itself (a different valid decomposition does not change k*Q)",
+    "class C (compared with [k]Q in the specification per line, not modelled): ep2_mul_lwreg (ep2_mul_reg_gls, bn_rec_sac), ep2_mul_cof",
     "Frobenius: ep2_frb(Q, i) = [p^i mod r]Q is checked per line for subgroup points and 'image on the twist' for points outside; the theorem "
     "endo_is_scalar_on_cyclic reduces the subgroup claim to the generator under additivity (additivity itself is observed, not proved)",
     "cofactor clearing: image has order dividing r and is zero iff h*P is; points outside the subgroup come from e2pt (x chosen by the generator, y "
     "by the library's square root, curve equation re-checked by the driver)",
 ]
-ASSUMPTIONS = ["curves over cubic/quartic/octic extensions (ep3/ep4/ep8) exist only for other pairing field sizes and are not covered (PARTIAL)",
+ASSUMPTIONS = ["bn_rec_frb is modelled on integers (floor division, +1 on negative quotients, residues centred by comparing bit lengths); the "
+               "fixed-length digit arithmetic of bn_mul / bn_div / bn_mod underneath is C01's subject; tie: every lwnaf / mul / sim / lot line",
+               "the GLS theorems assume psi(Q) = [p mod r]Q: true on the order-r subgroup (checked on G, additivity of psi observed per line by the "
+               "frb lines); for twist points outside the subgroup the GLS routines are compared with the specification only where the generator "
+               "presents them (e2m takes subgroup points)",
+               "curves over cubic/quartic/octic extensions (ep3/ep4/ep8) exist only for other pairing field sizes and are not covered (PARTIAL)",
                "p381 (BLS12-381, M-type twist) is run in the thorough tier"]
 RULE = ("both pairing-friendly curves of the configuration (BN-P256, SM9-P256): identity, generator multiples, equal/opposite operands, projective and "
         "Jacobian operands with random z, every alias pattern; every multiplication variant by name x every scalar class of C03; Frobenius powers "
@@ -143,6 +155,35 @@ def gen_lines(rng, cv, count, outside):
         for al in (".p", ".q"):
             out.append("e2s %s%s %s %x %s %x" % (v, al, ptok(rng, cv, rng.choice(pool), "P"), 1 + rng.below(cv.n - 1),
                                                 ptok(rng, cv, rng.choice(pool), "P"), 1 + rng.below(cv.n - 1)))
+    # the Frobenius paths of the two-point and many-point routines: both scalars short combinations of powers of the eigenvalue (zero,
+    # negative and mixed-sign sub-scalars in every position, for either operand)
+    fro = lambda cs: sum(c * pow(L, i, cv.n) for i, c in enumerate(cs)) % cv.n
+    for v in ("inter", "sim", "gen", "basic"):
+        for _ in range(3):
+            out.append("e2s %s %s %x %s %x" % (v, ptok(rng, cv, rng.choice(pool + [cv.g]), "P"), fro(rng.choice(pats)),
+                                              ptok(rng, cv, rng.choice(pool), "P"), fro(rng.choice(pats))))
+    # the decomposition itself (invisible in k*Q: any valid decomposition gives the same point): every scalar class, structured scalars
+    for kc in range(c03.NCLASS):
+        out.append("e2frb %s" % hx(c03.scalar(rng, cv.n, kc)))
+    for cs in pats:
+        out.append("e2frb %s" % hx(fro(cs)))
+    for n_ in (1, 2, 4, 11, 13):      # above ten points: the bucket branch
+        toks = []
+        for _ in range(n_):
+            toks += [ptok(rng, cv, rng.choice(pool + [cv.g])), hx(rng.choice([fro(rng.choice(pats)), -fro(rng.choice(pats)), c03.scalar(rng, cv.n)]))]
+        out.append("e2l %d %s" % (n_, " ".join(toks)))
+    # single-digit scalars: the longest digit first / last / in the middle, a zero digit, equal lengths
+    for ds in ([(1 << 63) + 5, 3], [3, (1 << 63) + 5], [7, (1 << 40) + 1, 2], [0, 9], [(1 << 64) - 1, (1 << 64) - 1], [1]):
+        toks = []
+        for dg in ds:
+            toks += [ptok(rng, cv, rng.choice(pool + [cv.g])), hx(dg)]
+        out.append("e2d %d %s" % (len(ds), " ".join(toks)))
+    # identity as fixed base for every table form; sliding window at the capacity of its buffer (RLC_FP_BITS + 1 windows), both signs
+    for v in ("fix_basic", "fix_combs", "fix_combd", "fix_lwnaf", "fix_"):
+        out.append("e2m %s %d inf %s" % (v, rng.below(2), hx(1 + rng.below(cv.n - 1))))
+    for bl in (255, 256, 257, 258, 300):
+        kk = (1 << (bl - 1)) | rng.bits(bl - 1) | 1
+        out.append("e2m slide %d %s %s" % (rng.below(2), ptok(rng, cv, rng.choice(pool), "P"), hx(kk if rng.chance(1, 2) else -kk)))
     for _ in range(count):
         k = rng.below(100)
         if k < 22:
